@@ -13,6 +13,7 @@ from typing import Any, Callable, Iterable
 VERIF = os.path.dirname(os.path.dirname(os.path.abspath(__file__)))
 REPO = os.environ.get("NIXMC_REPO", "/repo")
 WORKERS = int(os.environ.get("NIXMC_WORKERS", "16"))
+OUT = os.environ.get("NIXMC_OUT", VERIF)  # evidence/ and replays/ go here (mutation runs use a scratch dir)
 GUARD = "NIMA_VERIF"
 
 
@@ -142,7 +143,7 @@ def sha(s: str) -> str:
 
 
 def write_replay(f: Failure) -> str:
-    d = os.path.join(VERIF, "replays", f.prop)
+    d = os.path.join(OUT, "replays", f.prop)
     os.makedirs(d, exist_ok=True)
     path = os.path.join(d, sha(f.sig) + ".json")
     json.dump({"property": f.prop, "sig": f.sig, "class": f.cls, "detail": f.detail, "case": f.case}, open(path, "w"), indent=1, ensure_ascii=False)
@@ -193,8 +194,8 @@ def finish(report: Report, tier: str, t0: float, collect: str | None = None) -> 
         "violations": len(unknown),
         "repo": REPO,
     }
-    os.makedirs(os.path.join(VERIF, "evidence"), exist_ok=True)
-    out = os.path.join(VERIF, "evidence", report.prop + ".json")
+    os.makedirs(os.path.join(OUT, "evidence"), exist_ok=True)
+    out = os.path.join(OUT, "evidence", report.prop + ".json")
     tmp = out + ".tmp"
     json.dump(ev, open(tmp, "w"), indent=1, ensure_ascii=False, default=str)
     os.replace(tmp, out)
